@@ -162,6 +162,9 @@ func (g *Group) completeJoin() {
 	g.State = "AwaitSync"
 	g.syncGate = make(chan struct{})
 	close(g.joinGate)
+	if g.opts != nil && g.opts.OnRound != nil {
+		g.opts.OnRound(g.Generation, g.Leader, g.listing(ids))
+	}
 }
 
 func (g *Group) memberIDs() []string {
@@ -371,6 +374,13 @@ func (b *Broker) syncGroup(req *Request) Reply {
 		}
 	}
 	b.journalLocked(req, map[string]interface{}{"group": gid, "member": memberID, "generation": int(gen), "code": int(code), "assignments": len(asgs)})
+	if g != nil && g.opts != nil && g.opts.OnSync != nil {
+		am := map[string][]byte{}
+		for _, a := range asgs {
+			am[a.member] = a.data
+		}
+		g.opts.OnSync(memberID, gen, am, code)
+	}
 	if code != 0 {
 		c.mu.Unlock()
 		return fail(code)
